@@ -72,6 +72,7 @@ TOccupancy ==
          Aw == BigSumSeq(occ, LAMBDA s : BigProd2(s.area, s.mult))                       \* 10^-6 m2
          Lw == BigSumSeq(occ, LAMBDA s : BigMul(BigProd2(s.area, s.mult), LoadsAvg(Ev, s)))  \* 10^-12
      IN /\ Chk("OccupiedHoursAreHoursWithSomeSpaceOccupied", (Ev.wellformed /\ regular) => Ev.hours = HoursInUse(exps, nz))
+        /\ Chk("MeanLoadIsANonNegativeNumber", Ev.wellformed => Ev.meanok)
         /\ Chk("MeanLoadIsAreaWeightedMean",
                (Ev.wellformed /\ Ev.meanok) =>
                   IF BigLe(Aw, BigOf(1)) THEN Ev.mean = 0
